@@ -198,7 +198,8 @@ PROPS = {
     'C04': dict(fams=C04F1 + ' c04_lookup c04_entry c04_disjoint c04_from_iter c04_set_extend c04_set_algebra'),
     'C05': dict(fams='c05_panics c01_insert c01_insert_kv c01_checked_insert c01_remove c01_remove_entry c01_retain c01_clear c01_drain_all c01_lookup c01_index '
                      'c07_insert c07_replace c07_remove c07_take c07_retain c10_drain '
-                     'c03_insert c03_insert_kv c03_or_insert c03_or_insert_with c03_or_insert_with_key c03_vacant_insert c03_or_default c03_set_insert c03_from_iter c03_set_extend'),
+                     'c03_insert c03_insert_kv c03_or_insert c03_or_insert_with c03_or_insert_with_key c03_vacant_insert c03_or_default c03_set_insert c03_from_iter c03_set_extend '
+                     'c18_insert_unchecked c11_or c11_variants c15_clone c16_from_iter c01_hist'),   # every state-changing path ends in well_formed()/observe()
     'C03': dict(fams=C03F + ' c03_replace_full'),
     'C08': dict(fams='c08_union c08_intersection c08_difference c08_symdiff c08_union_fold c08_intersection_fold c08_difference_fold c08_symdiff_fold c08_sub c08_difference_ref c08_predicates'),
     'C14': dict(fams='c14_map c14_set'),
